@@ -10,9 +10,11 @@ git checkout -q fc/go.mod 2>/dev/null
 echo "--- demo WITH the change (expect failure)"
 sh -c "$demo" > /tmp/seedconfirm_with.out 2>&1; echo "exit=$?"; tail -3 /tmp/seedconfirm_with.out
 git checkout -q fc/go.mod 2>/dev/null
-git stash -q
+# (git stash is shared between worktrees: use a diff file instead)
+git diff > /tmp/seedconfirm_change_$$.diff
+git apply -R /tmp/seedconfirm_change_$$.diff
 echo "--- demo WITHOUT the change (expect success)"
 sh -c "$demo" > /tmp/seedconfirm_without.out 2>&1; echo "exit=$?"; tail -3 /tmp/seedconfirm_without.out
 git checkout -q fc/go.mod 2>/dev/null
-git stash pop -q
+git apply /tmp/seedconfirm_change_$$.diff && rm -f /tmp/seedconfirm_change_$$.diff
 git status --short | head -5
